@@ -421,7 +421,7 @@ def _finite_differences(col, rule="C16.R3"):
         restored_each = bool(hdrs) and all(cfg.must_pass(plus[0].nid, h, [minus[0].nid]) for h in hdrs) and cfg.must_pass(plus[0].nid, cfg.EXIT, [minus[0].nid])
         col.add(rule, f"{q}#restored-before-next-column", restored_each, sx.loc(minus[0]), "x[i] is restored before the next column is computed", "")
         want_steps = S.mcall(S.SELF, "_knobs_to_x", S.sattr("steps_for_jacobian"))
-        col.add(rule, f"{q}#steps-in-solver-space", step[:1] == ("sub",) and step[1] == want_steps, sx.loc(sx.fn),
+        col.add(rule, f"{q}#steps-in-solver-space", S.coord(step) is not None and S.coord(step)[0] == want_steps, sx.loc(sx.fn),
                 "the knob steps are converted to solver space like the knobs", S.show(step)[:80])
     sx2 = octx(repo, "JacobianSolver", "step")
     X = S.sattr("x")
